@@ -229,14 +229,14 @@ def c01_vacuum_fire(ctx, carrier, step_ft, relative_deg, rlo, rhi, wind='none'):
 
 def _cfg_drag_loop(tier):
     K = 12 if tier == 'quick' else 40
-    plan = [('D', 20.0, dict(relative_deg=-80.0), 8000.0, 'none'), ('A', 100.0, dict(), 0.0, 'two'), ('D', 20.0, dict(relative_deg=60.0), 0.0, 'head')]
+    plan = [('F', 20.0, dict(relative_deg=-80.0), 8000.0, 'none'), ('A', 100.0, dict(), 0.0, 'two'), ('D', 20.0, dict(relative_deg=60.0), 0.0, 'head')]
     return [{'carrier': c, 'step_ft': s, 'kw': kw, 'altitude_ft': alt, 'wind': w, 'K': K} for (c, s, kw, alt, w) in plan]
 
 
 @harness('C01.drag_in_loop', 'C01', configs=_cfg_drag_loop, functions=FUNCS + ['py_ballisticcalc.trajectory_calc._trajectory_calc.TrajectoryCalc.drag_by_mach'], cost=6,
          engine_opts={'div_check': False, 'nl_axioms_in_feasibility': False},
          must_reach=['check:drag_in_the_loop_is_the_table_function_of_the_mach_asked', 'mach_rises', 'mach_falls'],
-         bounds='carriers D (300 fps, steep downhill from 8000 ft: the projectile ACCELERATES; and lofted into a head wind), A (two winds) with symbolic range: every drag value the loop '
+         bounds='carriers F (297 fps, steep downhill from 8000 ft: the projectile ACCELERATES across a table node boundary), D (lofted into a head wind), A (two winds) with symbolic range: every drag value the loop '
                 'obtains (pass-through spy on drag_by_mach) equals the stateless table look-up of the Mach asked (real _calculate_by_curve_and_mach_list on a freshly built curve, '
                 'which C09 decides against the table), times 2.08551e-4 / BC; and the Mach asked is |v - w| / a of the point fed to the recorder',
          outside=['shots other than the carriers: per step this is C01.step (drag asked at |v-w|/a) + C09 (what drag_by_mach returns)'])
@@ -270,7 +270,9 @@ def c01_drag_in_loop(ctx, carrier, step_ft, kw, altitude_ft, wind, K):
         ok = ok and (abs(v - want) <= 1e-12 * abs(want))
     ctx.check('drag_in_the_loop_is_the_table_function_of_the_mach_asked', ok, info={'calls': len(calls)})
     ms = [m for (m, _) in calls]
-    if any(b > a for a, b in zip(ms, ms[1:])):
-        ctx.reach('mach_rises')
+    pts_m = [pt.Mach for pt in pts]
+    mids = [(a + b) / 2 for a, b in zip(pts_m, pts_m[1:])]
+    if any(b > a and any(a < md <= b for md in mids) for a, b in zip(ms, ms[1:])):
+        ctx.reach('mach_rises')          # ... across a boundary between nearest table nodes
     if any(b < a for a, b in zip(ms, ms[1:])):
         ctx.reach('mach_falls')
